@@ -485,9 +485,9 @@ Section DepthHist.
 End DepthHist.
 
 (** * the local depth equations mean "length of a shortest path from the root" *)
-Inductive path (g : book) : N -> N -> nat -> Prop :=
-| path_nil : forall a, path g a a 0
-| path_step : forall a b c m k, path g a b k -> In (m, c) (children g b) -> path g a c (S k).
+Inductive path (g : book) (a : N) : N -> nat -> Prop :=
+| path_nil : path g a a 0
+| path_step : forall b c m k, path g a b k -> In (m, c) (children g b) -> path g a c (S k).
 
 Section Shortest.
   Variable g : book.
@@ -497,17 +497,16 @@ Section Shortest.
 
   Lemma path_keys : forall n k, path g (bk_root g) n k -> In n (bk_keys g).
   Proof.
-    intros n k P. induction P as [|a b c m k P IH Hc]; [exact Hroot|].
-    destruct (Heq b (IH Hroot)) as [_ L]. eapply eq_links_child; eauto.
+    intros n k P. induction P as [|b c m k P IH Hc]; [exact Hroot|].
+    destruct (Heq b IH) as [_ L]. eapply eq_links_child; eauto.
   Qed.
 
   (** no path from the root is shorter than the stored depth *)
   Theorem depth_lower_bound : forall n k, path g (bk_root g) n k -> depth g n <= Z.of_nat k.
   Proof.
-    intros n k P. remember (bk_root g) as r eqn:Er. induction P as [a|a b c m k P IH Hc].
-    - subst a. destruct (Heq _ Hroot) as [D _]. destruct (eq_depth_elim g _ D) as [D0 _]. rewrite D0 by reflexivity. lia.
-    - subst a. specialize (IH eq_refl). specialize (IH Hroot).
-      assert (Kb : In b (bk_keys g)) by (eapply path_keys; eauto).
+    intros n k P. induction P as [|b c m k P IH Hc].
+    - destruct (Heq _ Hroot) as [D _]. destruct (eq_depth_elim g _ D) as [D0 _]. rewrite D0 by reflexivity. lia.
+    - assert (Kb : In b (bk_keys g)) by (eapply path_keys; eauto).
       destruct (Heq b Kb) as [_ Lb].
       assert (Kc : In c (bk_keys g)) by (eapply eq_links_child; eauto).
       destruct (Heq c Kc) as [Dc Lc]. destruct (eq_depth_elim g c Dc) as [D0 [_ D2]].
